@@ -364,3 +364,31 @@ def prove(pc, goal):
     if r == z3.sat:
         return False, s.model()
     return None, None
+
+
+class StepBudget(Exception):
+    """the code under test executed more source lines than the budget allows (non-termination guard; deterministic, no signals)"""
+
+
+def with_step_budget(fn, filename_part, max_lines=200000):
+    """call fn() counting the executed source lines of frames whose file name contains `filename_part`"""
+    import sys
+    count = [0]
+
+    def local(frame, event, arg):
+        if event == "line":
+            count[0] += 1
+            if count[0] > max_lines:
+                raise StepBudget(f"more than {max_lines} lines executed")
+        return local
+
+    def tracer(frame, event, arg):
+        if event == "call" and filename_part in frame.f_code.co_filename:
+            return local
+        return None
+    old = sys.gettrace()
+    sys.settrace(tracer)
+    try:
+        return fn()
+    finally:
+        sys.settrace(old)
